@@ -492,13 +492,13 @@ fn run_random(sid: &str, seed: u64, nev: usize, tr: &mut Trace, cov: &mut Cov) -
     }
     // phase B plan: k2 is built by individually logged writes crossing 1024 entries
     let lo2 = rng.gen_range(5_000..60_000);
-    let mut plan: Vec<usize> = (lo2..lo2 + 1040).filter(|_| rng.gen_range(0..10) != 0).collect();
+    let mut plan: Vec<usize> = (lo2..lo2 + 1200).filter(|_| rng.gen_range(0..10) != 0).collect();
     match rng.gen_range(0..3) {
         0 => plan.reverse(),
         1 => plan.shuffle(&mut rng),
         _ => {}
     }
-    band[2] = (lo2, lo2 + 1039);
+    band[2] = (lo2, lo2 + 1199);
     band[3] = (rng.gen_range(100..1000), 0);
     band[3].1 = band[3].0 + 64;
 
